@@ -15,7 +15,10 @@ KNOWN_ITEMS_SIG = "intermediate-items-unreported:first-link-src-handler"
 _N = None
 
 
-def node_class():
+def node_classes():
+    """(Node, ENode): identity equality / value-based equality (`__eq__` on `value`, unhashable).
+    Tree-shapedness is about identity, so graphs of ENodes stay inside the property's quantifier;
+    the listener machinery must never confuse an object with an equal one."""
     global _N
     if _N is None:
         from traits.api import HasTraits, Int, Instance, List, Dict, Str
@@ -26,7 +29,19 @@ def node_class():
             child = Instance(HasTraits)
             kids = List(Instance(HasTraits))
             byname = Dict(Str, Instance(HasTraits))
-        _N = Node
+
+        class ENode(Node):
+            def __eq__(self, other):
+                if not isinstance(other, ENode):
+                    return NotImplemented
+                return self.value == other.value
+
+            def __ne__(self, other):
+                r = self.__eq__(other)
+                return r if r is NotImplemented else not r
+
+            __hash__ = None
+        _N = (Node, ENode)
     return _N
 
 
@@ -34,8 +49,16 @@ def node_class():
 # line protocol
 # --------------------------------------------------------------------------
 
+def parse_mode(s):
+    """'E' = value-equality nodes + equal clones on replacement, 'I' / nothing = identity nodes."""
+    w = s.split()
+    return "E" if w and w[0] == "E" else "I"
+
+
 def parse_name(s):
     w = s.split()
+    if w and w[0] in ("E", "I"):
+        w = w[1:]
     arity = int(w[0])
     links = [(t[0], t[1] == ".") for t in w[1:-1]]
     for t in w[1:-1]:
@@ -142,10 +165,26 @@ class Shadow:
             self.byname[o] = dict(zip(keys, self.fresh(len(keys))))
         elif k == "ds":
             self.byname[o][a[1]] = self.fresh(1)[0]
-        elif k == "dd":
+        elif k in ("du", "di"):
+            keys = list(dict.fromkeys(a[1:]))
+            for key, v in zip(keys, self.fresh(len(keys))):
+                self.byname[o][key] = v
+        elif k == "sd":
+            if a[1] in self.byname[o]:
+                return False
+            self.byname[o][a[1]] = self.fresh(1)[0]
+        elif k == "si":
+            if a[1] >= len(self.kids[o]):
+                return False
+            self.kids[o] = self.kids[o][:a[1]] + self.fresh(1) + self.kids[o][a[1] + 1:]
+        elif k in ("dd", "dp"):
             if a[1] not in self.byname[o]:
                 return False
             del self.byname[o][a[1]]
+        elif k == "dq":
+            if not self.byname[o]:
+                return False
+            self.byname[o].popitem()
         elif k == "dc":
             self.byname[o] = {}
         elif k in ("pv", "px"):
@@ -155,22 +194,31 @@ class Shadow:
         return True
 
 
-def _op_on(rng, sh, o, a, cap):
-    """A random valid mutation of attribute a of object o."""
+def _op_on(rng, sh, o, a, cap, eq=False):
+    """A random valid mutation of attribute a of object o.  With eq (value-equality nodes)
+    replacements of existing items / values are favoured: they are done with equal clones."""
     room = sh.next < cap
     if a == "c":
         return ["sc", o, 1 if (room and rng.random() < 0.75) else 0]
     if a == "k":
         n = len(sh.kids[o])
         r = rng.random()
+        if eq and n and room and rng.random() < 0.45:
+            if rng.random() < 0.5:
+                return ["si", o, rng.randrange(n)]
+            i = rng.randrange(n)
+            j = rng.randint(i + 1, n)
+            return ["sl", o, i, j, j - i]
         if not room:
             r = 0.5 + r / 2
-        if r < 0.15:
+        if r < 0.13:
             return ["sk", o, rng.choice([0, 1, 1, 2, 3])]
-        if r < 0.35:
+        if r < 0.30:
             return ["ap", o]
-        if r < 0.5:
+        if r < 0.42:
             return ["in", o, rng.randint(0, n)]
+        if r < 0.5 and n:
+            return ["si", o, rng.randrange(n)]
         if r < 0.7 and n:
             return ["dl", o, rng.randrange(n)]
         if r < 0.9:
@@ -183,13 +231,25 @@ def _op_on(rng, sh, o, a, cap):
     keys = list(sh.byname[o])
     r = rng.random()
     if not room:
-        r = 0.55 + r * 0.45
-    if r < 0.15:
+        r = 0.6 + r * 0.4
+    if r < 0.12:
         return ["sb", o] + rng.sample(range(4), rng.choice([0, 1, 2, 2, 3]))
+    if r < 0.32 or (eq and keys and r < 0.45):
+        return ["ds", o, rng.choice(keys) if (keys and rng.random() < (0.8 if eq else 0.45)) else rng.randrange(4)]
     if r < 0.55:
-        return ["ds", o, rng.choice(keys) if (keys and rng.random() < 0.45) else rng.randrange(4)]
+        # update / |= with a mix of existing and new keys (ONE event with `changed` and `added`)
+        ks = set(rng.sample(range(5), rng.choice([1, 2, 2, 3, 3])))
+        if keys and rng.random() < 0.7:
+            ks.add(rng.choice(keys))
+        ks = list(ks)
+        rng.shuffle(ks)
+        return [rng.choice(["du", "di"]), o] + ks
+    if r < 0.60:
+        return ["sd", o, rng.choice(keys) if (keys and rng.random() < 0.3) else rng.randrange(5)]
+    if r < 0.75 and keys:
+        return [rng.choice(["dd", "dp"]), o, rng.choice(keys)]
     if r < 0.85 and keys:
-        return ["dd", o, rng.choice(keys)]
+        return ["dq", o]
     if r < 0.93:
         return ["dc", o]
     return ["sb", o]
@@ -207,8 +267,8 @@ def random_name(rng):
     return arity, links, final
 
 
-def show_name(arity, links, final):
-    return ("#" if arity in (1, 2) else "") + " ".join([str(arity)] + [a + ("." if n else ":") for a, n in links] + [final])
+def show_name(arity, links, final, mode="I"):
+    return ("#" if arity in (1, 2) else "") + ("E " if mode == "E" else "") + " ".join([str(arity)] + [a + ("." if n else ":") for a, n in links] + [final])
 
 
 def show_ops(ops):
@@ -217,6 +277,8 @@ def show_ops(ops):
 
 def random_case(rng, name=None, cap=26):
     arity, links, final = name or random_name(rng)
+    mode = "E" if rng.random() < 0.3 else "I"
+    eq = mode == "E"
     sh = Shadow()
     nops = rng.randint(1, 12)
     style = rng.random()
@@ -232,9 +294,9 @@ def random_case(rng, name=None, cap=26):
                 # on-path: an object reachable at depth k, the attribute the name follows there
                 ks = [k for k in range(len(links)) if lv[k]]
                 k = max(ks) if rng.random() < 0.5 else rng.choice(ks)
-                op = _op_on(rng, sh, rng.choice(lv[k]), links[k][0], cap)
+                op = _op_on(rng, sh, rng.choice(lv[k]), links[k][0], cap, eq)
             elif r < 0.80:
-                op = _op_on(rng, sh, rng.randrange(sh.next), rng.choice("ckb"), cap)
+                op = _op_on(rng, sh, rng.randrange(sh.next), rng.choice("ckb"), cap, eq)
             elif r < 0.86:
                 op = [rng.choice(["pv", "px"]), rng.randrange(sh.next)]
             elif r < 0.92:
@@ -245,10 +307,12 @@ def random_case(rng, name=None, cap=26):
                 # malformed stream: unallocated object, bad index, missing key
                 op = rng.choice([["sc", sh.next + 1, 1], ["dl", rng.randrange(sh.next), 7],
                                  ["sl", rng.randrange(sh.next), 2, 1, 1], ["dd", rng.randrange(sh.next), 9],
-                                 ["in", rng.randrange(sh.next), 9], ["ap", sh.next + 3], ["pv", sh.next]])
+                                 ["in", rng.randrange(sh.next), 9], ["ap", sh.next + 3], ["pv", sh.next],
+                                 ["si", rng.randrange(sh.next), 8], ["dp", rng.randrange(sh.next), 9],
+                                 ["du", sh.next + 2, 1, 2]])
         sh.apply(op)
         ops.append(op)
-    return show_name(arity, links, final) + "|" + show_ops(ops)
+    return show_name(arity, links, final, mode) + "|" + show_ops(ops)
 
 
 # 8 fixed names; for each a prefix building a 3-object tree along the name and the
@@ -262,6 +326,8 @@ EXH = [
     ("4 b. v", "sb 0 0 1"),
     ("3 k. c: x", "sk 0 1;sc 1 1"),
     ("4 b: k. v", "sb 0 0;sk 1 1"),
+    ("E 4 k: v", "sk 0 2"),
+    ("E 4 b. k. v", "sb 0 0;sk 1 1"),
 ]
 
 
@@ -277,9 +343,10 @@ def _alphabet(name):
             if a == "c":
                 al += [["sc", o, 1], ["sc", o, 0]]
             elif a == "k":
-                al += [["sk", o, 1], ["ap", o], ["dl", o, 0], ["sl", o, 0, 1, 1], ["cl", o]]
+                al += [["sk", o, 1], ["ap", o], ["dl", o, 0], ["sl", o, 0, 1, 1], ["si", o, 0], ["cl", o]]
             else:
-                al += [["sb", o, 1], ["ds", o, 0], ["ds", o, 2], ["dd", o, 0], ["dc", o]]
+                al += [["sb", o, 1], ["ds", o, 0], ["ds", o, 2], ["du", o, 0, 2], ["di", o, 3, 0, 1], ["sd", o, 4],
+                       ["dd", o, 0], ["dq", o], ["dc", o]]
     return al
 
 
@@ -311,8 +378,9 @@ def _calls(l):
 
 
 class World:
-    def __init__(self, arity, links, final):
-        self.Node = node_class()
+    def __init__(self, arity, links, final, mode="I"):
+        self.eq = mode == "E"
+        self.Node = node_classes()[1 if self.eq else 0]
         self.arity, self.links, self.final = arity, links, final
         self.pool = []
         self.idof = {}
@@ -346,14 +414,19 @@ class World:
             w.observed.append(w.canon_event(event))
         self.oh = oh
 
-    def new(self):
+    def new(self, like=None):
+        """A fresh object; with value-equality nodes a replacement is an equal CLONE of the
+        object it replaces (value copied before the object is inserted anywhere)."""
         o = self.Node()
+        if self.eq and like is not None:
+            o.value = like.value
         self.idof[id(o)] = len(self.pool)
         self.pool.append(o)
         return o
 
-    def fresh(self, n):
-        return [self.new() for _ in range(n)]
+    def fresh(self, n, like=()):
+        like = list(like)
+        return [self.new(like[t] if t < len(like) else None) for t in range(n)]
 
     def canon_event(self, ev):
         n = type(ev).__name__
@@ -451,9 +524,14 @@ class World:
             new = self.fresh(a[1])
             o.kids = new
             return (i, "k", bool(old or new))
-        if k in ("ap", "in", "dl", "sl", "cl"):
+        if k in ("ap", "in", "dl", "sl", "cl", "si"):
             self.current = (i, "ki")
             n = len(o.__dict__.get("kids", ()))
+            if k == "si":
+                if a[1] >= n:
+                    return None
+                o.kids[a[1]] = self.new(o.kids[a[1]])
+                return (i, "ki", True)
             if k == "ap":
                 o.kids.append(self.new())
                 return (i, "ki", True)
@@ -471,7 +549,7 @@ class World:
                 lo, hi, cnt = a[1:]
                 if not (lo <= hi <= n):
                     return None
-                o.kids[lo:hi] = self.fresh(cnt)
+                o.kids[lo:hi] = self.fresh(cnt, o.kids[lo:hi])
                 return (i, "ki", hi > lo or cnt > 0)
             o.kids.clear()
             return (i, "ki", n > 0)
@@ -483,7 +561,37 @@ class World:
             return (i, "b", bool(old or keys))
         if k == "ds":
             self.current = (i, "bi")
-            o.byname["k%d" % a[1]] = self.new()
+            key = "k%d" % a[1]
+            o.byname[key] = self.new(o.__dict__.get("byname", {}).get(key))
+            return (i, "bi", True)
+        if k in ("du", "di"):
+            self.current = (i, "bi")
+            keys = list(dict.fromkeys(a[1:]))
+            cur = o.__dict__.get("byname", {})
+            new = dict(("k%d" % key, self.new(cur.get("k%d" % key))) for key in keys)
+            if k == "du":
+                o.byname.update(new)
+            else:
+                o.byname |= new
+            return (i, "bi", bool(keys))
+        if k == "sd":
+            self.current = (i, "bi")
+            key = "k%d" % a[1]
+            if key in o.__dict__.get("byname", {}):
+                return None          # setdefault on a present key does nothing (no object is created)
+            o.byname.setdefault(key, self.new())
+            return (i, "bi", True)
+        if k == "dp":
+            self.current = (i, "bi")
+            if ("k%d" % a[1]) not in o.__dict__.get("byname", {}):
+                return None
+            o.byname.pop("k%d" % a[1])
+            return (i, "bi", True)
+        if k == "dq":
+            self.current = (i, "bi")
+            if not o.__dict__.get("byname", {}):
+                return None
+            o.byname.popitem()
             return (i, "bi", True)
         if k == "dd":
             self.current = (i, "bi")
@@ -508,23 +616,25 @@ def run_case(case):
     try:
         name, ops = case.lstrip("#").split("|")
         arity, links, final = parse_name(name)
+        mode = parse_mode(name)
         ops = parse_ops(ops)
     except Exception:
         return "bad-case", [], ["bad-case"]
     from traits.api import push_exception_handler, pop_exception_handler
     push_exception_handler(lambda *a: None, reraise_exceptions=True)
     try:
-        return _run(arity, links, final, ops)
+        return _run(arity, links, final, ops, mode)
     finally:
         pop_exception_handler()
 
 
-def _run(arity, links, final, ops):
+def _run(arity, links, final, ops, mode="I"):
     from .seqlib import exc_name
-    w = World(arity, links, final)
+    w = World(arity, links, final, mode)
     outs, hits, tags = [], [], set()
     n = len(links)
     tags.add("arity%d" % arity)
+    tags.add("nodes:" + ("value-eq" if mode == "E" else "identity-eq"))
     tags.add("links%d" % n)
     ever_registered = False
     for op in ops:
